@@ -715,6 +715,34 @@ def un_d{k}(y: i64, c: bool) -> i64:
     return y
 '''
 
+GEN_EXC = '''
+def ex_ret64_{k}(n: i64) -> i64:
+    if n {cmp1} 0:
+        raise ValueError("neg")
+    return n * 2
+
+def ex_pair_{k}(n: i64) -> Tuple[i64, float]:
+    return n, 1.5
+
+def ex_nested_{k}(n: i64, xs: List[int], f: float) -> float:
+    t = 0
+    try:
+        t += ex_ret64_{k}(n)
+        try:
+            a, b = ex_pair_{k}(n)
+            t += a + xs[{c1}]
+            f = f / b
+        except IndexError:
+            t += 100
+            raise KeyError("k")
+        finally:
+            t += 1
+    except ValueError as e:
+        t -= 1
+        assert t {cmp2} {c2}, "msg"
+    return f + float(t)
+'''
+
 GEN_FLAG_LOOP = '''
 def w{k}(xs: List[int]) -> int:
     n = True
@@ -748,7 +776,8 @@ def gen_pass_programs(rng: vlib.Rng, n: int) -> list[dict]:
                                            cmp1=rng.choice(["<", "<=", "==", "!=", ">", ">="]), cmp2=rng.choice(["<", "<=", "==", "!=", ">", ">="]),
                                            bop=rng.choice(["and", "or"]), bop2=rng.choice(["and", "or"]),
                                            c1=rng.choice([0, 1, 7, 2 ** 31, 2 ** 62, 2 ** 64]), c2=rng.choice([3, 10, 2 ** 40]))
-        txt = "from mypy_extensions import i64\n" + txt
+        txt = "from typing import Tuple\nfrom mypy_extensions import i64\n" + txt
+        txt += GEN_EXC.format(k=k, cmp1=rng.choice(["<", "<="]), cmp2=rng.choice(["<", ">", "=="]), c1=rng.choice([0, 1]), c2=rng.choice([5, 6]))
         txt += GEN_UNINIT.format(k=k, op1=rng.choice("+-*"), cmp1=rng.choice(["<", "<="]), cmp2=rng.choice(["<", ">", "=="]),
                                  c1=rng.choice([1, 9]), c2=rng.choice([5, 6]))
         txt += GEN_FLAG_LOOP.format(k=k, cmp1=rng.choice(["<", "<=", "!="]), cmp2=rng.choice(["<", ">", "=="]),
@@ -893,6 +922,7 @@ def pass_stage(ctx: vlib.Ctx, exe: str | None, tmp: str) -> None:
         outs = list(ex.map(one, enumerate(jobs)))
     pairs: list[dict] = []
     upairs: list[dict] = []
+    xpairs: list[dict] = []
     errs: dict[str, int] = {}
     ncases = 0
     for st, o, path in outs:
@@ -905,7 +935,9 @@ def pass_stage(ctx: vlib.Ctx, exe: str | None, tmp: str) -> None:
                 key = s["err"].split(":")[0]
                 errs[key] = errs.get(key, 0) + 1
         pairs += [q for q in parse_pass_dump(path) if q["kind"] in ("copyprop", "flagelim")]
-        upairs += [q for q in parse_rich_dump(path) if q["kind"] == "uninit"]
+        rich = parse_rich_dump(path)
+        upairs += [q for q in rich if q["kind"] == "uninit"]
+        xpairs += [q for q in rich if q["kind"] == "exc"]
     ctx.log(f"(b) dumped {len(pairs)} before/after pairs from {ncases} programs in {time.time()-t0:.1f}s; not compiled: {errs}")
     ctx.cov["pass_programs"] = ncases
     ctx.cov["pass_programs_not_compiled"] = errs
@@ -984,7 +1016,8 @@ def pass_stage(ctx: vlib.Ctx, exe: str | None, tmp: str) -> None:
         ulines.append(ln)
         umeta.append((q, info))
     uout = run_driver(exe, ulines) if ulines else []
-    urej = uexcl = uexcl_addr = uexcl_tmp = 0
+    urej = uexcl = 0
+    uexcl_by: dict[str, int] = {}
     for (q, info), o, ln in zip(umeta, uout, ulines):
         if o != "1":
             urej += 1
@@ -994,25 +1027,50 @@ def pass_stage(ctx: vlib.Ctx, exe: str | None, tmp: str) -> None:
                               "block overwrites it with the error value (bitmap-tracked types: its bit starts cleared), so every later read "
                               f"raises UnboundLocalError even when the argument was never deleted: {q['name']}",
                               {"kind": "pass", "pass": "uninit", "function": q["name"], "driver_line": ln[:20000]})
-            elif undominated_temp_read(q["after"]):
-                # generator helper before spill.py: an op value is live across a resume edge (not a register; uninit.py ignores it)
-                uexcl_tmp += 1
-            elif info.get("address_taken"):
-                # a register whose address is taken (LoadAddress) is initialised through the pointer; not modelled
-                uexcl_addr += 1
-            elif info.get("unnamed_in_prelude"):
-                # uninit.py deliberately skips the check for possibly-undefined registers WITHOUT a name ("XXX ... it should be OK??"):
-                # the validator cannot justify that; counted as an exclusion, not loosened
+            elif (ur := undefined_reads(q["after"])) and "named" not in ur:
+                # the rejection is explained by reads uninit.py deliberately leaves unchecked; counted, never accepted
+                cls = "temp" if "temp" in ur else ("unnamed-pointer-initialised" if "unnamed-pointer-initialised" in ur else "unnamed")
+                uexcl_by[cls] = uexcl_by.get(cls, 0) + 1
                 uexcl += 1
-            elif urej - uexcl - uexcl_addr - uexcl_tmp <= 3:
+            elif urej - uexcl <= 3 + 8:
                 ctx.violation(f"pass:uninit:{q['name']}", f"verified validator rejects the output of insert_uninit_checks on {q['name']} ({o})",
                               {"kind": "pass", "pass": "uninit", "function": q["name"], "driver_line": ln[:20000]})
+    # ---- insert_exception_handling pairs
+    xlines, xmeta = [], []
+    xstats = {"magic": 0, "false": 0, "always": 0, "overlap": 0, "handlers": 0, "not_normalisable": 0}
+    for q in xpairs:
+        try:
+            ln, info = exc_case(q)
+        except Exception as ex:  # noqa
+            ln, info = None, {"reason": f"normaliser exception {type(ex).__name__}: {ex}"}
+        if ln is None:
+            xstats["not_normalisable"] += 1
+            if xstats["not_normalisable"] <= 3:
+                ctx.broke("C", "exceptions pair cannot be normalised to guarded blocks", f"{q['name']}: {info}")
+            continue
+        for kk in ("magic", "false", "always", "overlap", "handlers"):
+            xstats[kk] += info[kk]
+        xlines.append(ln)
+        xmeta.append(q)
+    xout = run_driver(exe, xlines) if xlines else []
+    xrej = 0
+    for q, o, ln in zip(xmeta, xout, xlines):
+        if o != "1":
+            xrej += 1
+            if xrej <= 3:
+                ctx.violation(f"pass:exceptions:{q['name']}",
+                              f"verified validator rejects the output of insert_exception_handling on {q['name']} ({o}): it is not the "
+                              "expansion of the implicit error checks of its input",
+                              {"kind": "pass", "pass": "exceptions", "function": q["name"], "driver_line": ln[:20000]})
+    ctx.cov["exceptions_pairs_validated"] = len(xlines)
+    ctx.cov["exceptions_pairs_rejected"] = xrej
+    ctx.cov["exceptions_checks_by_kind"] = xstats
+    ctx.add("evaluations", len(xlines))
+    ctx.add("traces_validated_against_impl", len(xlines))
     ctx.cov["uninit_pairs_validated"] = len(ulines)
     ctx.cov["uninit_pairs_rejected"] = urej
-    ctx.cov["uninit_pairs_excluded_unnamed_register_unchecked"] = uexcl
-    ctx.cov["uninit_pairs_excluded_address_taken_register"] = uexcl_addr
-    ctx.cov["uninit_pairs_excluded_value_live_across_resume_edge"] = uexcl_tmp
-    ctx.cov["uninit_stats"] = ustats
+    ctx.cov["uninit_pairs_excluded"] = uexcl
+    ctx.cov["uninit_pairs_excluded_by_reason"] = uexcl_by
     ctx.add("evaluations", len(lines) + len(ulines))
     ctx.add("traces_validated_against_impl", len(lines) + len(ulines))
     ctx.cov["pass_pairs_validated"] = len(lines)
@@ -1066,12 +1124,14 @@ def run(ctx: vlib.Ctx) -> None:
         "validator hints (replacement map, available-copy annotations, flag->label map) are computed in Python and are untrusted: the theorems quantify over them",
         "core (c) theorems are BOUNDED: every parameter list of <= 4 parameters x every call with <= 5 positional and <= 3 keyword actuals, enumerated completely inside Coq (vm_compute); C12/Bind.v cpython_bind is the accept/reject reference; TypeError message texts are not compared (they differ, examples in evidence)",
         "uninit validator: AFTER is first normalised to guarded blocks (continuation blocks merged back, bitmap idioms recognised) by Python code that is TRUSTED; theorem hypotheses: defined values of types with a spare error value are not the error value, branches without traceback entry have no effect; axiom functional_extensionality_dep; possibly-undefined UNNAMED registers are not checked by uninit.py (its XXX clause): such functions are counted as exclusions",
+        "exceptions validator: same TRUSTED normalisation to guarded blocks; the expected branch/comparison/call symbols per error kind are computed by the dumper from the BEFORE op (error-kind table of ir/ops.py), independent of exceptions.py; fresh value ids of inserted ops are hints checked for freshness",
         "extraction: ExtrOcamlBasic only; OCaml driver tools/ocaml/c05_driver.ml (I/O only)",
         "CPython 3.12.1 is the oracle for run-time behaviour; gcc builds with -Wno-tautological-compare",
     ]
     ok = ctx.prove("C05/Properties.v", ["C05"])
     ctx.prove("C05/PropertiesC.v", ["C05", "C12"])
     ctx.prove("C05/PropertiesU.v", ["C05"])
+    ctx.prove("C05/PropertiesX.v", ["C05"])
     exe = vlib.build_extracted("c05_" + ctx.tier, "C05/Extract.v", "tools/ocaml/c05_driver.ml")
     if exe is None:
         ctx.broke("C", "extraction", "extracted model does not build")
@@ -1329,6 +1389,10 @@ def parse_rich_dump(path: str) -> list[dict]:
                 blk[2].append(("o", int(t[1]), int(t[2]), t[3:]))
             elif t[0] == "O":
                 blk[2].append(("O", int(t[1]), int(t[2]), t[3], t[4:]))
+            elif t[0] == "Y":
+                blk[2][-1] = blk[2][-1] + (t[1:],)
+            elif t[0] == "D":
+                fn["dflt_sym"] = int(t[1])
             elif t[0] in ("g", "c", "r", "u"):
                 blk[3] = tuple(t)
             elif t[0] == "E":
@@ -1342,24 +1406,43 @@ def parse_rich_dump(path: str) -> list[dict]:
 BITMAP_MASK = (1 << 32) - 1
 
 
-def undominated_temp_read(fn: dict) -> bool:
-    """Does some op read an op VALUE (not a register) that is not defined on every path to it?  Happens in generator helpers
-    before spill.py runs (values live across a resume edge); uninit.py only looks at registers, the validator wants every read defined."""
+def undefined_reads(fn: dict) -> list[str]:
+    """Independent must-defined analysis of a dumped function: the kinds of variables some op reads although they are not
+    defined on every path to it.  'temp' = an op VALUE (generator helper before spill.py: live across a resume edge);
+    'unnamed-pointer-initialised' = a nameless register whose address is taken (LoadAddress) and that a C callee fills in
+    through the pointer (e.g. the StopIteration value of CPyIter_Send / CPy_YieldFromErrorHandle);
+    'unnamed' = another nameless register (uninit.py's XXX clause skips all of these); 'named' = a named register."""
     regs = fn["regs"]
+    addr = {int(o[3].split(":")[1]) for b in fn["blocks"] for o in b[2] if o[0] == "O" and o[3].startswith("loadaddr:")}
     labels = [b[0] for b in fn["blocks"]]
-    blocks = {b[0]: b for b in fn["blocks"]}
     uni = set(regs) | {o[1] for b in fn["blocks"] for o in b[2]}
     ain = {l: set(uni) for l in labels}
     ain[labels[0]] = set(fn["args"])
+
+    def step(D: set[int], U: set[int], o) -> None:
+        if o[0] == "O" and o[3] == "undef":
+            D.discard(o[1])
+            U.add(o[1])
+        elif o[0] == "a" and o[2][0] == "v" and int(o[2][1:]) in U:
+            D.discard(o[1])
+        else:
+            D.add(o[1])
+            U.discard(o[1])
     preds: dict[int, list[int]] = {l: [] for l in labels}
     for b in fn["blocks"]:
         for t in term_succs(b[3] or ("u",)):
             if t in preds:
                 preds[t].append(b[0])
+    blocks = {b[0]: b for b in fn["blocks"]}
     changed = True
     while changed:
         changed = False
-        out = {l: ain[l] | {o[1] for o in blocks[l][2]} for l in labels}
+        out = {}
+        for l in labels:
+            D, U = set(ain[l]), set()
+            for o in blocks[l][2]:
+                step(D, U, o)
+            out[l] = D
         for l in labels[1:]:
             n = set(ain[l])
             for q in preds[l]:
@@ -1367,15 +1450,32 @@ def undominated_temp_read(fn: dict) -> bool:
             if n != ain[l]:
                 ain[l] = n
                 changed = True
+    kinds: list[str] = []
+
+    def note(x: str, D: set[int], U: set[int]) -> None:
+        if x[0] != "v":
+            return
+        v = int(x[1:])
+        if v in D or v in U:
+            return
+        if v not in regs:
+            kinds.append("temp")
+        elif not regs[v][1]:
+            kinds.append("unnamed-pointer-initialised" if v in addr else "unnamed")
+        else:
+            kinds.append("named")
     for b in fn["blocks"]:
-        D = set(ain[b[0]])
+        D, U = set(ain[b[0]]), set()
         for o in b[2]:
-            srcs = [o[2]] if o[0] == "a" else (o[4] if o[0] == "O" else o[3])
-            for x in srcs:
-                if x[0] == "v" and int(x[1:]) not in D and int(x[1:]) not in regs:
-                    return True
-            D.add(o[1])
-    return False
+            for x in ([o[2]] if o[0] == "a" else (o[4] if o[0] == "O" else o[3])):
+                note(x, D, U)
+            step(D, U, o)
+        t = b[3]
+        if t and t[0] == "c" and t[6] != "iserr":
+            note(t[3], D, U)
+        if t and t[0] == "r":
+            note(t[1], D, U)
+    return kinds
 
 
 def uninit_case(p: dict) -> tuple[str | None, dict]:
@@ -1544,11 +1644,137 @@ def uninit_case(p: dict) -> tuple[str | None, dict]:
             + f" {len(labels)} " + " ".join(f"{l} {plist(sorted(ain[l]))}" for l in labels)
             + " " + enc(gbefore) + " " + enc(gafter))
     info["bitmap_registers"] = len(bmt)
-    info["address_taken"] = any(o[0] == "O" and o[3] == "loadaddr" for b in after["blocks"] for o in b[2])
     info["unnamed_in_prelude"] = any(a.startswith("U ") and b.startswith("p a ") and b.split()[3] == "v" + a.split()[1]
                                      and not regs.get(int(b.split()[2]), ("", True, False))[1] for a, b in zip(blocks[labels[0]][0], blocks[labels[0]][0][1:]))
     eg = blocks[labels[0]][0]
     info["undefines_argument"] = (any(a.startswith("U ") and b.startswith("p a ") and b.split()[3] == "v" + a.split()[1] and int(b.split()[2]) in args
                                       for a, b in zip(eg, eg[1:])) or any(r in args for r in bmt))
     info["prelude_regs"] = [int(g.split()[2]) for g in blocks[labels[0]][0] if g.startswith("p a ") and g.split()[3][0] == "v"][:0]
+    return " ".join(line.split()), info
+
+
+# =========================================================================================== (b3) exceptions validator
+def exc_case(p: dict) -> tuple[str | None, dict]:
+    """Normalise AFTER of an insert_exception_handling pair into guarded blocks (TRUSTED merge of continuation blocks), attach
+    to every BEFORE op its error-kind spec (from the dumper) with the fresh value ids found in AFTER (hints), encode the request."""
+    before, after = p["before"], p["after"]
+    nb = len(before["blocks"])
+    ab = {b[0]: b for b in after["blocks"]}
+    info: dict[str, Any] = {"magic": 0, "false": 0, "always": 0, "overlap": 0, "handlers": 0}
+
+    def op_s(o) -> str:
+        if o[0] == "a":
+            return f"a {o[1]} {o[2]}"
+        return f"o {o[1]} {o[2]} {len(o[4])} " + " ".join(o[4])
+
+    def term_s(t) -> str:
+        return " ".join(t[:6]) if t[0] == "c" else " ".join(t)
+    # ---- AFTER: merge the chains
+    gafter: list[tuple[int, list[str], tuple]] = []
+    merged: set[int] = set()
+    fresh: dict[int, list] = {}        # head label -> list of (probe dests..., call dest) per overlapping op, in order
+    for L in range(1, nb + 1):
+        cur = ab.get(L)
+        if cur is None:
+            return None, {"reason": "original block missing in AFTER"}
+        gops: list[str] = []
+        steps = 0
+        while True:
+            steps += 1
+            if steps > 10000:
+                return None, {"reason": "merge does not terminate"}
+            gops += ["p " + op_s(o) for o in cur[2]]
+            t = cur[3]
+            if t is None:
+                return None, {"reason": "block without terminator"}
+            if t[0] == "c" and int(t[5]) > nb and int(t[5]) in ab and int(t[5]) not in merged:
+                T, F = int(t[4]), int(t[5])
+                tb = ab.get(T)
+                if (T > nb and tb is not None and T not in merged and len(tb[2]) == 1 and tb[2][0][0] == "O" and tb[3] and tb[3][0] == "c"
+                        and int(tb[3][5]) == F):
+                    # overlapping error value: rare branch into a block that calls err_occurred and branches to the handler
+                    gops.append(f"H {t[1]} {t[2]} {t[3]} 1 {op_s(tb[2][0])} {tb[3][1]} {tb[3][2]} {tb[3][3]} {tb[3][4]}")
+                    merged.add(T)
+                else:
+                    gops.append(f"G {t[1]} {t[2]} {t[3]} {T}")
+                merged.add(F)
+                cur = ab[F]
+                continue
+            gafter.append((L, gops, t))
+            break
+    rest = [l for l in sorted(ab) if l > nb and l not in merged]
+    df = None
+    for l in rest:
+        b = ab[l]
+        gb = (l, ["p " + op_s(o) for o in b[2]], b[3])
+        if df is None and len(b[2]) == 1 and b[2][0][0] == "O" and b[3] and b[3][0] == "r":
+            df = gb
+        gafter.append(gb)
+    # ---- BEFORE with specs; fresh ids are read off AFTER in order of appearance
+    after_ops = {L: [g for g in gs] for L, gs, _ in gafter}
+    xblocks = []
+    for b in before["blocks"]:
+        L = b[0]
+        stream = after_ops.get(L, [])
+        pos = 0
+        xs = []
+        if b[1]:
+            info["handlers"] += 1
+        for o in b[2]:
+            # advance the AFTER stream to this op (same dest id)
+            while pos < len(stream) and not (stream[pos].startswith("p ") and stream[pos].split()[2] == str(o[1])):
+                pos += 1
+            pos += 1
+            spec = o[5] if len(o) > 5 else None
+            if spec is None:
+                xs.append(op_s(o) + " n")
+            elif spec[0] == "m":
+                info["magic"] += 1
+                xs.append(op_s(o) + f" m {spec[1]}")
+            elif spec[0] == "f":
+                info["false"] += 1
+                xs.append(op_s(o) + f" f {spec[1]}")
+            elif spec[0] == "a":
+                info["always"] += 1
+                xs.append(op_s(o) + f" a {spec[1]} {spec[2][1:]}")
+            elif spec[0] == "v":
+                info["overlap"] += 1
+                npr = int(spec[1])
+                i = 2
+                prev = f"v{o[1]}"
+                probes = []
+                for _ in range(npr):
+                    sym, nargs = spec[i], int(spec[i + 1])
+                    i += 2
+                    lit = None
+                    if nargs == 2:
+                        lit = spec[i]
+                        i += 1
+                    # hinted fresh id: dest of the next inserted op in AFTER
+                    dest = 0
+                    if pos < len(stream) and stream[pos].startswith("p o "):
+                        dest = int(stream[pos].split()[2])
+                        pos += 1
+                    probes.append(f"o {dest} {sym} {nargs} {prev}" + (f" {lit}" if lit else ""))
+                    prev = f"v{dest}"
+                k1, callsym, k2 = spec[i], spec[i + 1], spec[i + 2]
+                cdest = 0
+                if pos < len(stream) and stream[pos].startswith("H "):
+                    w = stream[pos].split()
+                    if len(w) > 6 and w[5] == "o":
+                        cdest = int(w[6])
+                    pos += 1
+                xs.append(op_s(o) + f" v {npr} " + " ".join(probes) + f" {k1} o {cdest} {callsym} 0 {k2}")
+            else:
+                return None, {"reason": f"unknown error kind {spec}"}
+        if b[3] is None:
+            return None, {"reason": "block without terminator"}
+        xblocks.append((L, b[1], xs, b[3]))
+
+    def genc(gb) -> str:
+        return f"{len(gb[1])} " + " ".join(gb[1]) + " " + term_s(gb[2])
+    dfs = "0" if df is None else f"1 {df[0]} {genc(df)}"
+    line = (f"xc {dfs} 1 {before.get('dflt_sym', 1)} {len(xblocks)} "
+            + " ".join(f"{L} {h} {len(xs)} " + " ".join(xs) + " " + term_s(t) for L, h, xs, t in xblocks)
+            + f" {len(gafter)} " + " ".join(f"{g[0]} {genc(g)}" for g in gafter))
     return " ".join(line.split()), info
